@@ -625,12 +625,35 @@ func isSuggest(targetT base.T, sig base.Sig) bool {
 	return isParentClass(sig, targetT.GetFrame(), objectClass, isStaticTarget, false, false)
 }
 
+type parentWalkKey struct {
+	frame, class        string
+	isExtend, isInclude bool
+}
+
 func isParentClass(
 	sig base.Sig,
 	frame, class string,
 	isStaticTarget bool,
 	isExtend bool,
 	isInclude bool,
+) bool {
+
+	return walkParentClass(
+		sig, frame, class, isStaticTarget, isExtend, isInclude,
+		make(map[parentWalkKey]bool),
+	)
+}
+
+// walkParentClass visits every ancestor once per kind of edge it was reached through.
+// A class that is included along several paths (diamond-shaped hierarchies) would
+// otherwise be searched once per path, which is exponential in the depth.
+func walkParentClass(
+	sig base.Sig,
+	frame, class string,
+	isStaticTarget bool,
+	isExtend bool,
+	isInclude bool,
+	visited map[parentWalkKey]bool,
 ) bool {
 
 	if isExtend && !isStaticTarget {
@@ -657,10 +680,17 @@ func isParentClass(
 		return true
 	}
 
+	key := parentWalkKey{frame, class, isExtend, isInclude}
+	if visited[key] {
+		return false
+	}
+
+	visited[key] = true
+
 	classNode := base.ClassNode{Frame: frame, Class: class}
 
 	for _, parentNode := range base.ClassInheritanceMap[classNode] {
-		if isParentClass(sig, parentNode.Frame, parentNode.Class, isStaticTarget, parentNode.IsExtend, parentNode.IsInclude) {
+		if walkParentClass(sig, parentNode.Frame, parentNode.Class, isStaticTarget, parentNode.IsExtend, parentNode.IsInclude, visited) {
 			return true
 		}
 	}
